@@ -519,16 +519,21 @@ fn matrix_case() -> impl Strategy<Value = Case> {
             ].boxed(),
             Kind::Dec | Kind::DecSuffix => wide_literal().prop_map(String::into_bytes).boxed(),
             Kind::NonDec => Just(Vec::new()).boxed(),
-            Kind::Str => "[ -~\\t\\n]{0,20}".prop_map(String::into_bytes).boxed(),
+            // (a quoted / block / expression element that merely spells a keyword or a number is still not one)
+            Kind::Str => prop_oneof![4 => "[ -~\\t\\n]{0,20}".prop_map(String::into_bytes), 1 => float_word().prop_map(String::into_bytes), 1 => bool_word().prop_map(String::into_bytes), 1 => "[0-9]{1,3}".prop_map(String::into_bytes)].boxed(),
             Kind::Block => prop_oneof![
                 2 => proptest::collection::vec(any::<u8>(), 0..24),
                 1 => "[ -~]{0,20}".prop_map(String::into_bytes),
                 1 => "\\PC{0,8}".prop_map(String::into_bytes),
+                1 => float_word().prop_map(String::into_bytes),
+                1 => bool_word().prop_map(String::into_bytes),
             ].boxed(),
             Kind::Expr => prop_oneof![
                 1 => "[ !#-&*-:<-~]{0,20}".prop_map(String::into_bytes),
                 1 => "@[0-9!:,]{0,12}".prop_map(String::into_bytes),
                 1 => "[0-9.:,e+-]{0,12}".prop_map(String::into_bytes),
+                1 => float_word().prop_map(String::into_bytes),
+                1 => bool_word().prop_map(String::into_bytes),
             ].boxed(),
         };
         (Just(target), Just(kind), text, "[A-Za-z][A-Za-z0-9./-]{0,6}", any::<u64>())
